@@ -118,6 +118,17 @@ func c09(c *ctx) {
 				}
 				r.Check(stripLift(b) == stripLift(w), "R2/"+fnName(f)+"/versioned-store-batch", c.p.Pos(cs.Pos()), "writes into the Store's own batch", "a VersionedStore is built over batch "+c.p.path(b)+", which is not the batch stored in Store.writer ("+c.p.path(w)+"): its writes would not be part of the block's atomic write")
 			}
+			// the same through a new helper shared by several builders: the batch is rendered in the builder's context
+			for _, dc := range c.p.callsInDeep(f, newVS) {
+				if len(dc.Chain) == 0 {
+					continue
+				}
+				pb := c.p.pathIn(dc.Chain, argOf(dc.CS, 1))
+				if pb == "nil" {
+					continue
+				}
+				r.Check(pb == c.p.path(w), "R2/"+fnName(f)+"/versioned-store-batch", c.p.Pos(dc.Chain[0].Pos()), "writes into the Store's own batch (through "+calleeName(dc.Chain[0].Common())+")", "a VersionedStore is built over batch "+pb+", which is not the batch stored in Store.writer ("+c.p.path(w)+"): its writes would not be part of the block's atomic write")
+			}
 		}
 		// everywhere else in the package: writable versioned stores use s.writer (Rollback builds its own offline batch)
 		for _, f := range c.p.Funcs {
@@ -134,7 +145,29 @@ func c09(c *ctx) {
 					continue
 				}
 				p := c.p.path(b)
+				if isParamPath(p) && c.p.isNewNamed(f) {
+					continue // a new shared constructor helper: judged at each of its call sites, in the caller's context
+				}
 				r.Check(p == "$0.writer", "R2/"+fnName(f)+"/versioned-store-batch", c.p.Pos(cs.Pos()), "built over s.writer", fnName(f)+" builds a writable VersionedStore over "+p+" instead of the Store's shared batch s.writer")
+			}
+		}
+		for _, f := range c.p.Funcs {
+			if pkgShort(f) != "store" || isTestFile(c.p, f.Pos()) || c.p.isNewNamed(f) {
+				continue
+			}
+			switch fnName(enclosing(f)) {
+			case "store.NewStoreWithDB", "(*store.Store).Reset", "(*store.Store).Copy", "(*store.Store).Rollback":
+				continue
+			}
+			for _, dc := range c.p.callsInDeep(f, newVS) {
+				if len(dc.Chain) == 0 {
+					continue
+				}
+				pb := c.p.pathIn(dc.Chain, argOf(dc.CS, 1))
+				if pb == "nil" {
+					continue
+				}
+				r.Check(pb == "$0.writer", "R2/"+fnName(f)+"/versioned-store-batch", c.p.Pos(dc.Chain[0].Pos()), "built over s.writer (through "+calleeName(dc.Chain[0].Common())+")", fnName(f)+" builds a writable VersionedStore over "+pb+" instead of the Store's shared batch s.writer")
 			}
 		}
 		// nested transactions share the parent's batch; the commitment tree writes through the state store's writer
@@ -518,6 +551,16 @@ func c10(c *ctx) {
 		p := c.p.path(argOf(cs, 2))
 		r.Check(p == "$1" || p == "18446744073709551615", "R2/NewReadOnly/version", c.p.Pos(cs.Pos()), "reads at "+p, "NewReadOnly builds a reader at version "+p+", expected the requested queryVersion (or the latest-state sentinel when it equals the current version)")
 	}
+	const latestSentinel = "18446744073709551615"
+	for _, dc := range c.p.callsInDeep(newRO, newVS) {
+		if len(dc.Chain) == 0 {
+			continue // direct calls: above
+		}
+		pos := c.p.Pos(dc.Chain[0].Pos())
+		r.Check(c.p.pathIn(dc.Chain, argOf(dc.CS, 1)) == "nil", "R2/NewReadOnly/versioned-store", pos, "nil batch", "NewReadOnly builds a VersionedStore with a batch: a historical view could write")
+		p := c.p.pathIn(dc.Chain, argOf(dc.CS, 2))
+		r.Check(p == "$1" || p == latestSentinel, "R2/NewReadOnly/version", pos, "reads at "+p, "NewReadOnly builds a reader at version "+p+", expected the requested queryVersion (or the latest-state sentinel when it equals the current version)")
+	}
 	for _, cs := range callsIn(newRO, false, newTxn) {
 		r.Check(isNilConst(argOf(cs, 1)), "R2/NewReadOnly/txn", c.p.Pos(cs.Pos()), "nil writer", "NewReadOnly builds a Txn with a writer: a historical view could write")
 	}
@@ -528,6 +571,17 @@ func c10(c *ctx) {
 		target: func(in ssa.Instruction, st *PState, e *pathEngine) string {
 			if cc := callCommon(in); cc != nil && callIs(cc, newVS) && c.p.path(argOf(in.(ssa.CallInstruction), 2)) == "18446744073709551615" {
 				return "latest-state-reader"
+			}
+			// the same reader built through a new shared constructor helper: the version is rendered in NewReadOnly's context
+			if call, ok := in.(*ssa.Call); ok && in.Parent() == newRO {
+				if sc := call.Common().StaticCallee(); sc != nil && !call.Common().IsInvoke() && c.p.isNewNamed(sc) {
+					for _, dc := range c.p.callsInDeep(origin(sc), newVS) {
+						chain := append([]ssa.CallInstruction{call}, dc.Chain...)
+						if c.p.pathIn(chain, argOf(dc.CS, 2)) == "18446744073709551615" {
+							return "latest-state-reader"
+						}
+					}
+				}
 			}
 			return ""
 		},
